@@ -62,7 +62,7 @@ def observe(registry, marked, inc, exc, files, *, check_fns=True, check_kw=True,
     }
 
 
-WORDS = [b"alpha", b"Beta", b"x y", b"1234", b"a-b", b"\xe9t\xe9", b"alpha", b"ALPHA", b"#comment", b"; note", b"//x", b" lead", b"trail "]
+WORDS = [b"\xc3\x85ngstr\xc3\xb6m", b"a\x0bb", b"x\x0cy", b"p\x1cq\x1dr\x1es", b"\xd1\x85", b"tab\there", b"alpha", b"Beta", b"x y", b"1234", b"a-b", b"\xe9t\xe9", b"alpha", b"ALPHA", b"#comment", b"; note", b"//x", b" lead", b"trail "]
 
 
 def random_dir(rng: random.Random, root: str) -> None:
